@@ -110,6 +110,12 @@ class P(Prop):
         if o != "ok":
             sig = f"verilog-read-raised-{o}"
             sig += self.synth_clash(m) or (":unconnected-pin" if unconn else "")
+            # K49 (narrow): the word `endmodule` inside a comment, before the real end of the module
+            import re as _re
+            body = text[: text.rfind("endmodule")]
+            if sig == f"verilog-read-raised-{o}" and o in ("other:UnexpectedToken", "other:UnexpectedCharacters", "other:UnexpectedEOF") and \
+                    _re.search(r"(//[^\n]*endmodule|/\*(?:(?!\*/).)*endmodule)", body, _re.S):
+                sig += ":endmodule-in-comment"
             self.fail("search", sig, f"verilog_to_circuit raised {o}", case)
             return
         if c.inputs() != set(m.inputs) or c.outputs() != set(m.outputs):
@@ -172,6 +178,13 @@ class P(Prop):
         pins = {"clk": None, "d": "a", "q": "o"}
         m.stmts, m.bb_insts, m.defs, m.outputs, m.wires = [("bb", "ff", "u", pins)], [("u", bb, pins)], {"o": ("bbout", "u", "q")}, ["o"], []
         self.oracle(m, "module m(a, o);\n input a;\n output o;\n ff u (.clk(), .d(a), .q(o));\nendmodule\n", None)
+
+        # K49 (known): the word `endmodule` in a comment cuts the module text short
+        m = vgen.Module(rng)
+        m.inputs, m.stmts, m.bb_insts = ["a"], [("assign", "o", vgen.Expr("id", name="a"))], []
+        m.defs = {"o": m.stmts[0][2]}
+        m.outputs, m.wires, m.name = ["o"], [], "m"
+        self.oracle(m, "module m(a, o);\n input a; // up to endmodule\n output o;\n assign o = a;\nendmodule\n", None)
 
     def search(self, n):
         for i in range(n):
